@@ -112,4 +112,15 @@ theorem deleteLoop_gapfree {l : List (Grp α)} (h : l.map (·.name) = List.range
   have := name_lt_of_range' h hg
   simp; omega
 
+
+/-- the link names are 1..n in SOME order (what the backend primitive guarantees for an arbitrary index argument) -/
+def GapFreeSet (a : Arr α) : Prop := a.names.Perm (List.range' 1 a.count)
+
+theorem names_createGroup (l : List (Grp α)) (idx : Nat) (d : Desc α) :
+    ((l.filter (fun g : Grp α => g.name ≠ idx)) ++ [(⟨idx, d⟩ : Grp α)]).map (·.name) =
+      ((l.map (·.name)).filter (fun n => n != idx)) ++ [idx] := by
+  simp [List.filter_map, Function.comp_def]
+  congr 1
+
+
 end Nix.C13
